@@ -14,6 +14,7 @@ Use weights live in tables/switch_weights.json (derived by reading; one reason e
 """
 import json
 import math
+import re
 import os
 from fractions import Fraction
 
@@ -613,7 +614,8 @@ def input_roots(e, env0, params, depth=0):
         while isinstance(base, tuple) and base[0] == "mcall":
             base = base[1]
         if isinstance(base, tuple) and base[0] == "ref" and base[1] in params:
-            return {A.show(e)}
+            # |x|, |x|^2 and their variants vanish together: one root
+            return {re.sub(r"\.(squaredNorm|stableNorm|norm|lpNorm<[^>]*>)\(\)$", ".norm()", A.show(e))}
         out |= input_roots(e[1], env0, params, depth + 1)
         for a in e[4] or []:
             out |= input_roots(a, env0, params, depth + 1)
